@@ -1,4 +1,5 @@
 import VrpProofs.C17.Lkh
+import VrpProofs.C17.LkhCycle
 import VrpProofs.C17.Dbscan
 import VrpProofs.C17.KMed
 /-!
@@ -8,7 +9,8 @@ The theorems live in `VrpProofs/C17/{Lkh,Dbscan,KMed}.lean`; this file collects 
 (one per clause of the property) under the names used in `DESIGN.md`.
 
 * LKH: `tryPath_perm_start`, `tryPath_edges_subset`, `tryPath_usesExactly`, `cost_accounting`,
-  `optimize_cost_nonincreasing`, `optimize_terminates` (`improve` abstracted by `Improves`).
+  `optimize_cost_nonincreasing`, `optimize_terminates` (`improve` abstracted by `Improves`);
+  `tryPath_closes`, `tryPath_degOk_usesExactly`, `optimize_*_moves` (`improve` abstracted by `ImprovesMove`).
 * DBSCAN: `clusters_pairwise_disjoint`, `cluster_seed_is_core`, `members_density_reachable`,
   `no_core_unclustered`, `fuel_sufficient`, `model_meets_spec`, `specReachable_sound`.
 * k-medoids: `result_is_partition`, `nearest_own_medoid`, `keys_are_medoids`, `key_in_own_cluster`,
